@@ -20,6 +20,7 @@ import (
 	"encoding/hex"
 	"fmt"
 	"math/big"
+	"sort"
 	"strconv"
 	"strings"
 	"time"
@@ -289,7 +290,7 @@ func classify(err error) string {
 	return "err:other" // whatever encoding/asn1 or crypto/x509 returned (not an ocsp error type)
 }
 
-func showResp(r *ocsp.Response, withPa bool) string {
+func showResp(r *ocsp.Response, withPa bool, der []byte) string {
 	pa := " pa60=" + b01(r.ProducedAt.Unix()%60 == 0)
 	if withPa {
 		pa = fmt.Sprintf(" pa=%d", r.ProducedAt.Unix())
@@ -297,7 +298,8 @@ func showResp(r *ocsp.Response, withPa bool) string {
 	byname := len(r.RawResponderName) > 0 || r.ResponderKeyHash == nil
 	return fmt.Sprintf("ok st=%d serial=%s%s this=%d next=%d rev=%d reason=%d hash=%d alg=%d byname=%s cert=%s next=%d",
 		r.Status, r.SerialNumber.String(), pa, r.ThisUpdate.Unix(), r.NextUpdate.Unix(), r.RevokedAt.Unix(), r.RevocationReason,
-		int(r.IssuerHash), int(r.SignatureAlgorithm), b01(byname), b01(r.Certificate != nil), len(r.Extensions))
+		int(r.IssuerHash), int(r.SignatureAlgorithm), b01(byname), b01(r.Certificate != nil), len(r.Extensions)) +
+		" raw=" + b01(bytes.Equal(r.Raw, der))
 }
 
 func certArg(o hx.Op, k string) *x509.Certificate {
@@ -321,13 +323,19 @@ func execResp(o hx.Op) string {
 		if err != nil {
 			return classify(err)
 		}
-		return showResp(r, true) + " csf=" + b01(r.CheckSignatureFrom(issuerArg(o, "iss")) == nil)
+		return showResp(r, true, o.Hex("der")) + " csf=" + b01(r.CheckSignatureFrom(issuerArg(o, "iss")) == nil)
 	}
-	r, err := ocsp.ParseResponseForCert(o.Hex("der"), certArg(o, "cert"), issuerArg(o, "iss"))
+	var r *ocsp.Response
+	var err error
+	if o.Str("pr") == "1" { // the ParseResponse entry point (cert == nil)
+		r, err = ocsp.ParseResponse(o.Hex("der"), issuerArg(o, "iss"))
+	} else {
+		r, err = ocsp.ParseResponseForCert(o.Hex("der"), certArg(o, "cert"), issuerArg(o, "iss"))
+	}
 	if err != nil {
 		return classify(err)
 	}
-	return showResp(r, true)
+	return showResp(r, true, o.Hex("der"))
 }
 
 func mkTemplate(o hx.Op) ocsp.Response {
@@ -361,7 +369,7 @@ func execCr(o hx.Op) string {
 	if err != nil {
 		return classify(err)
 	}
-	return showResp(r, false)
+	return showResp(r, false, der)
 }
 
 func showReq(r *ocsp.Request) string {
@@ -377,7 +385,20 @@ func classifyReq(err error) string {
 
 func execReq(o hx.Op) string {
 	n, _ := new(big.Int).SetString(o.Str("serial"), 10)
-	der, err := ocsp.CreateRequest(&x509.Certificate{SerialNumber: n}, ents[o.Int("issuer")].cert, &ocsp.RequestOptions{Hash: crypto.Hash(o.Int("hash"))})
+	var der []byte
+	var err error
+	switch o.Str("via") {
+	case "marshal": // (*Request).Marshal called directly with the oracle hashes
+		req := &ocsp.Request{HashAlgorithm: crypto.Hash(o.Int("hash")), IssuerNameHash: o.Hex("o.nh"), IssuerKeyHash: o.Hex("o.kh"), SerialNumber: n}
+		if req.HashAlgorithm == 0 {
+			req.HashAlgorithm = crypto.SHA1
+		}
+		der, err = req.Marshal()
+	case "nilopts":
+		der, err = ocsp.CreateRequest(&x509.Certificate{SerialNumber: n}, ents[o.Int("issuer")].cert, nil)
+	default:
+		der, err = ocsp.CreateRequest(&x509.Certificate{SerialNumber: n}, ents[o.Int("issuer")].cert, &ocsp.RequestOptions{Hash: crypto.Hash(o.Int("hash"))})
+	}
 	if err != nil {
 		return "create-err"
 	}
@@ -396,9 +417,52 @@ func execPreq(o hx.Op) string {
 	return showReq(r)
 }
 
+func joinInts(xs ...int) string {
+	s := make([]string, len(xs))
+	for i, x := range xs {
+		s[i] = strconv.Itoa(x)
+	}
+	return strings.Join(s, ",")
+}
+
+func execConst() string {
+	var names []string
+	for _, n := range []int{0, 1, 2, 3, 4, 5, 6, 7, -1} {
+		names = append(names, ocsp.ResponseStatus(n).String())
+	}
+	return fmt.Sprintf("status=%s reasons=%s rs=%s names=%s",
+		joinInts(ocsp.Good, ocsp.Revoked, ocsp.Unknown, ocsp.ServerFailed),
+		joinInts(ocsp.Unspecified, ocsp.KeyCompromise, ocsp.CACompromise, ocsp.AffiliationChanged, ocsp.Superseded, ocsp.CessationOfOperation,
+			ocsp.CertificateHold, ocsp.RemoveFromCRL, ocsp.PrivilegeWithdrawn, ocsp.AACompromise),
+		joinInts(int(ocsp.Success), int(ocsp.Malformed), int(ocsp.InternalError), int(ocsp.TryLater), int(ocsp.SignatureRequired), int(ocsp.Unauthorized)),
+		strings.Join(names, "|"))
+}
+
+var errVars = map[string][]byte{
+	"MalformedRequestErrorResponse": ocsp.MalformedRequestErrorResponse, "InternalErrorErrorResponse": ocsp.InternalErrorErrorResponse,
+	"TryLaterErrorResponse": ocsp.TryLaterErrorResponse, "SigRequredErrorResponse": ocsp.SigRequredErrorResponse,
+	"UnauthorizedErrorResponse": ocsp.UnauthorizedErrorResponse,
+}
+
+func execErrvar(o hx.Op) string {
+	var iss *x509.Certificate
+	if o.Str("issuer") == "1" {
+		iss = ents[1].cert
+	}
+	r, err := ocsp.ParseResponse(errVars[o.Str("name")], iss)
+	if err != nil {
+		return classify(err)
+	}
+	return showResp(r, true, errVars[o.Str("name")])
+}
+
 func exec(line string) string {
 	o := hx.Parse(line)
 	switch o.Cmd {
+	case "const":
+		return execConst()
+	case "errvar":
+		return execErrvar(o)
 	case "resp":
 		return execResp(o)
 	case "cr":
@@ -412,6 +476,36 @@ func exec(line string) string {
 }
 
 // ---------------------------------------------------------------- generators
+
+// pairs counts every pair of features present in one op (feature-interaction coverage).
+func pairs(g *hx.Gen, feats []string) {
+	for i := 0; i < len(feats); i++ {
+		for j := i + 1; j < len(feats); j++ {
+			a, b := feats[i], feats[j]
+			if a > b {
+				a, b = b, a
+			}
+			g.Stat("pair." + a + "+" + b)
+		}
+	}
+}
+
+var tableHit = map[string]map[int]bool{}
+
+func hit(table string, idx int) {
+	if tableHit[table] == nil {
+		tableHit[table] = map[int]bool{}
+	}
+	tableHit[table][idx] = true
+}
+
+func reportTables(g *hx.Gen) {
+	total := map[string]int{"sigOID.parse": 12, "sigAlg.create": 17, "hashOID.response": 4, "hashOID.request": 4, "respStatus": 8, "certStatus": 4,
+		"reason": 11, "keyType": 4, "errvar": 5, "ridTag": 3}
+	for t, n := range total {
+		g.StatN(fmt.Sprintf("table.%s=%d/%d", t, len(tableHit[t]), n), 1)
+	}
+}
 
 func must[T any](v T, err error) T {
 	if err != nil {
@@ -466,9 +560,22 @@ func defaultAlg(e *entity) int {
 }
 
 // buildResponse assembles an OCSP response with our own schema; returns DER and the serials it contains.
-func buildResponse(g *hx.Gen, r *hx.Rand) (der []byte, serials []*big.Int, issuerPick int) {
+func buildResponse(g *hx.Gen, r *hx.Rand) (der []byte, serials []*big.Int, issuerPick int, feats []string) {
 	signer := r.Range(1, 7)
 	e := ents[signer]
+	fset := map[string]bool{}
+	defer func() {
+		for f := range fset {
+			feats = append(feats, f)
+		}
+		sort.Strings(feats)
+	}()
+	if e.styp == "rsa" {
+		fset["rsa"] = true
+	} else {
+		fset["ecdsa"] = true
+	}
+	hit("keyType", map[string]int{"rsa": 0, "ec256": 1, "ec384": 2, "ec521": 3}[e.styp])
 	clean := r.Chance(3, 5) // mostly-valid stream: at most the signature / issuer / selection vary
 	d := func(k int) int { // defect selector: in clean mode never picks a defect branch
 		if clean {
@@ -492,19 +599,40 @@ func buildResponse(g *hx.Gen, r *hx.Rand) (der []byte, serials []*big.Int, issue
 		if clean {
 			h = hx.Pick(r, []int{3, 5, 6, 7})
 		}
+		if h == 3 || h >= 5 {
+			hit("hashOID.response", h)
+			if h != 3 {
+				fset["sha2-certid"] = true
+			}
+		}
 		s := singleResponse{CertID: certID{HashAlgorithm: pkix.AlgorithmIdentifier{Algorithm: hashOID[h], Parameters: asn1.RawValue{Tag: 5}},
 			NameHash: r.Bytes(20), IssuerKeyHash: r.Bytes(20), SerialNumber: randSerial(r)}, ThisUpdate: randTime(r), NextUpdate: randTime(r)}
 		if i > 0 && r.Chance(1, 3) {
 			s.CertID.SerialNumber = singles[r.Intn(i)].CertID.SerialNumber // duplicate serial: the first one must win
 			g.Stat("resp.duplicate-serial")
 		}
-		switch r.Intn(7) {
+		kind := r.Intn(7)
+		switch kind {
+		case 0, 1:
+			hit("certStatus", 0)
+		case 2:
+			hit("certStatus", 2)
+			fset["unknown"] = true
+		case 3, 4:
+			hit("certStatus", 1)
+			fset["revoked"] = true
+		case 6:
+			hit("certStatus", 3)
+		}
+		switch kind {
 		case 0, 1:
 			s.Good = true
 		case 2:
 			s.Unknown = true
 		case 3:
-			s.Revoked = revokedInfo{RevocationTime: randTime(r), Reason: asn1.Enumerated(r.Intn(11))}
+			rsn := r.Intn(11)
+			hit("reason", rsn)
+			s.Revoked = revokedInfo{RevocationTime: randTime(r), Reason: asn1.Enumerated(rsn)}
 		case 4:
 			s.Revoked = revokedInfo{RevocationTime: time.Unix(int64(r.Range(1e9, 2e9)), 0).UTC(), Reason: asn1.Enumerated(hx.Pick(r, []int{0, 1, -1, 2147483647}))}
 		case 5: // good and revoked at once
@@ -518,6 +646,9 @@ func buildResponse(g *hx.Gen, r *hx.Rand) (der []byte, serials []*big.Int, issue
 			crit := r.Chance(1, 4) && !(clean && r.Chance(9, 10))
 			if crit {
 				g.Stat("resp.critical-extension")
+				fset["crit"] = true
+			} else {
+				fset["ext"] = true
 			}
 			s.SingleExtensions = append(s.SingleExtensions, pkix.Extension{Id: asn1.ObjectIdentifier{1, 3, 6, 1, 5, 5, 7, 48, 1, r.Range(2, 9)}, Critical: crit, Value: r.Bytes(r.Range(1, 6))})
 		}
@@ -539,6 +670,15 @@ func buildResponse(g *hx.Gen, r *hx.Rand) (der []byte, serials []*big.Int, issue
 	case 3:
 		rid = asn1.RawValue{Class: 2, Tag: r.Range(1, 2), IsCompound: true, Bytes: append(must(asn1.Marshal(r.Bytes(4))), r.Bytes(r.Intn(3))...)}
 		g.Stat("resp.rid-odd-content")
+	}
+	if rid.Tag >= 0 && rid.Tag <= 2 {
+		hit("ridTag", rid.Tag)
+	}
+	if rid.Tag == 2 {
+		fset["keyhash"] = true
+	}
+	if n > 1 {
+		fset["multi"] = true
 	}
 	tbs := responseData{RawResponderID: rid, ProducedAt: randTime(r), Responses: singles}
 	if n == 0 {
@@ -563,7 +703,13 @@ func buildResponse(g *hx.Gen, r *hx.Rand) (der []byte, serials []*big.Int, issue
 		algOID = asn1.ObjectIdentifier{1, 2, 3, 4}
 		g.Stat("resp.unknown-sigalg")
 	case 2:
-		algOID = sigOID[hx.Pick(r, []int{3, 4, 10, 11, 7})] // algorithm that may not match the signature
+		algOID = sigOID[hx.Pick(r, []int{1, 3, 4, 10, 11, 7, 8})] // algorithm that may not match the signature
+	}
+	if n := sigNum(algOID); n > 0 {
+		hit("sigOID.parse", n)
+	}
+	if alg != defaultAlg(e) {
+		fset["nondefault-alg"] = true
 	}
 	resp := basicResponse{TBSResponseData: tbs, SignatureAlgorithm: pkix.AlgorithmIdentifier{Algorithm: algOID}, Signature: asn1.BitString{Bytes: sig, BitLength: 8 * len(sig)}}
 	if e.styp == "rsa" {
@@ -597,6 +743,12 @@ func buildResponse(g *hx.Gen, r *hx.Rand) (der []byte, serials []*big.Int, issue
 		chainIssuer = hx.Pick(r, []int{ents[o].by, e.by})
 		g.Stat("resp.chain-signer-last")
 	}
+	if len(resp.Certificates) > 0 {
+		fset["emb"] = true
+	}
+	if len(resp.Certificates) > 1 {
+		fset["chain"] = true
+	}
 	basicDER := must(asn1.Marshal(resp))
 	typ := oidBasic
 	status := 0
@@ -605,6 +757,7 @@ func buildResponse(g *hx.Gen, r *hx.Rand) (der []byte, serials []*big.Int, issue
 		typ = asn1.ObjectIdentifier{1, 3, 6, 1, 5, 5, 7, 48, 1, 2}
 	case 1:
 		status = hx.Pick(r, []int{1, 2, 3, 5, 6, 4, 7, -1})
+		hit("respStatus", status)
 	case 2:
 		basicDER = append(basicDER, 0)
 		g.Stat("resp.inner-trailing")
@@ -625,7 +778,8 @@ func buildResponse(g *hx.Gen, r *hx.Rand) (der []byte, serials []*big.Int, issue
 	return
 }
 
-func emitResp(g *hx.Gen, r *hx.Rand, der []byte, serials []*big.Int, iss int) {
+func emitResp(g *hx.Gen, r *hx.Rand, der []byte, serials []*big.Int, iss int, feats []string) {
+	feats = append([]string(nil), feats...)
 	cert := "-"
 	if (r.Chance(1, 2) || (len(serials) > 1 && r.Chance(4, 5))) && len(serials) > 0 {
 		if r.Chance(1, 6) {
@@ -645,7 +799,19 @@ func emitResp(g *hx.Gen, r *hx.Rand, der []byte, serials []*big.Int, iss int) {
 	if issuer != nil && r.Chance(1, 6) {
 		csf = " csf=1"
 		g.Stat("resp.two-step-CheckSignatureFrom")
+		feats = append(feats, "csf")
+	} else if cert == "-" && r.Chance(1, 3) {
+		csf = " pr=1"
+		g.Stat("resp.via-ParseResponse")
+		feats = append(feats, "ParseResponse")
 	}
+	if issuer != nil {
+		feats = append(feats, "issuer")
+	}
+	if cert != "-" {
+		feats = append(feats, "certarg")
+	}
+	pairs(g, feats)
 	g.Emit("resp cert=%s issuer=%s iss=%s%s %s der=%s", cert, b01(issuer != nil), issS, csf, respFacts(der, issuer), hx.Hex(der))
 }
 
@@ -676,11 +842,11 @@ func mutateDER(r *hx.Rand, der []byte) []byte {
 func genResp(g *hx.Gen, n int) {
 	r := g.R
 	for i := 0; i < n; i++ {
-		der, serials, iss := buildResponse(g, r)
-		emitResp(g, r, der, serials, iss)
-		for k := 3; k > 0; k-- {
+		der, serials, iss, feats := buildResponse(g, r)
+		emitResp(g, r, der, serials, iss, feats)
+		for k := 2; k > 0; k-- {
 			g.Stat("resp.mutant")
-			emitResp(g, r, mutateDER(r, der), serials, iss)
+			emitResp(g, r, mutateDER(r, der), serials, iss, append(feats, "mutant"))
 		}
 		if r.Chance(1, 4) {
 			g.Stat("resp.random-der")
@@ -693,7 +859,7 @@ func genResp(g *hx.Gen, n int) {
 			default:
 				junk = append([]byte{0x30, 0x03, 0x0a, 0x01, byte(r.Intn(8))}, r.Bytes(r.Intn(2))...)
 			}
-			emitResp(g, r, junk, nil, r.Intn(4))
+			emitResp(g, r, junk, nil, r.Intn(4), []string{"random-der"})
 		}
 	}
 }
@@ -779,8 +945,41 @@ func genCr(g *hx.Gen, n int) {
 			}
 		}
 		g.Stat("cr.template")
+		hit("sigAlg.create", alg)
+		if status >= 0 && status <= 3 {
+			hit("certStatus.create", status)
+		}
 		if issuer != "-" && issuer != strconv.Itoa(e.by) && issuer != strconv.Itoa(signer) {
 			g.Stat("cr.wrong-issuer")
+		}
+		{
+			var f []string
+			f = append(f, map[int]string{0: "cr-good", 1: "cr-revoked", 2: "cr-unknown"}[status])
+			if status < 0 || status > 2 {
+				f[0] = "cr-badstatus"
+			}
+			if cert != "-" {
+				f = append(f, "cr-cert")
+			}
+			if issuer == "-" {
+				f = append(f, "cr-noissuer")
+			}
+			if alg != 0 {
+				f = append(f, "cr-alg")
+			}
+			if len(exts) > 0 {
+				f = append(f, "cr-exts")
+			}
+			if pcert != "-" {
+				f = append(f, "cr-certarg")
+			}
+			if ihash != 0 && ihash != 3 {
+				f = append(f, "cr-sha2")
+			}
+			if e.styp != "rsa" {
+				f = append(f, "cr-ec")
+			}
+			pairs(g, f)
 		}
 		g.Emit("cr status=%d serial=%s this=%d next=%d rev=%d reason=%d ihash=%d alg=%d exts=%s cert=%s signer=%d styp=%s issuer=%s pcert=%s loc=%s",
 			status, serial, tm(), tm(), tm(), reason, ihash, alg, hx.JoinStrs(exts), cert, signer, e.styp, issuer, pcert, b01(r.Chance(1, 4)))
@@ -815,7 +1014,15 @@ func genReq(g *hx.Gen, n int) {
 			kh = hx.Hex(hh.Sum(nil))
 		}
 		g.Stat("req.roundtrip")
-		g.Emit("req hash=%d serial=%s issuer=%d o.nh=%s o.kh=%s", h, randSerial(r).String(), iss, nh, kh)
+		if eff == 3 || eff >= 5 && eff <= 7 {
+			hit("hashOID.request", eff)
+		}
+		via := hx.Pick(r, []string{"create", "create", "marshal"})
+		if h == 0 && r.Chance(1, 2) {
+			via = "nilopts"
+		}
+		g.Stat("req.via-" + via)
+		g.Emit("req hash=%d serial=%s issuer=%d o.nh=%s o.kh=%s via=%s", h, randSerial(r).String(), iss, nh, kh, via)
 	}
 }
 
@@ -859,11 +1066,27 @@ func genPreq(g *hx.Gen, n int) {
 	}
 }
 
+func genConst(g *hx.Gen) {
+	g.Emit("const")
+	i := 0
+	for name := range errVars {
+		_ = name
+		i++
+	}
+	for k, name := range []string{"MalformedRequestErrorResponse", "InternalErrorErrorResponse", "TryLaterErrorResponse", "SigRequredErrorResponse", "UnauthorizedErrorResponse"} {
+		hit("errvar", k)
+		g.Emit("errvar name=%s issuer=0", name)
+		g.Emit("errvar name=%s issuer=1", name)
+	}
+}
+
 func gen(g *hx.Gen) {
+	genConst(g)
 	genResp(g, g.Count(1500, 40000))
 	genCr(g, g.Count(800, 20000))
 	genReq(g, g.Count(200, 5000))
 	genPreq(g, g.Count(500, 20000))
+	reportTables(g)
 }
 
 func main() { hx.Main(hx.Harness{Gen: gen, Exec: exec}) }
